@@ -28,6 +28,7 @@ def shards(pid, tier, seed):
         return ([{"mode": "threaded", "n": 40} for _ in range(4)] + [{"mode": "threaded", "n": 12, "start_at": 2 ** 32 - 400000}]
                 + [{"mode": "convert", "lo": 1000, "hi": 100000, "stride": 9, "offset": i} for i in range(2)])
     return ([{"mode": "threaded", "n": 1500} for _ in range(14)] + [{"mode": "threaded", "n": 200, "start_at": 2 ** 32 - 3000000}]
+            + [{"mode": "threaded", "n": 1, "marathon": 70000}]        # one delay object that waits 70 000 times (23 min of a 50 Hz loop)
             + [{"mode": "convert", "lo": 1000 + i * 24750, "hi": min(100000, 1000 + (i + 1) * 24750 - 1), "stride": 1, "offset": 0} for i in range(4)])
 
 
@@ -321,6 +322,9 @@ def run_shard(spec):
         return acc.result()
     for i in range(spec["n"]):
         case = gen_case(rng)
+        if spec.get("marathon"):
+            case.update({"P": 20000, "bodies": [0] * spec["marathon"], "use_with": True, "exit_exc": False})
+            acc.ev("marathon-of-waits", spec["marathon"])
         if spec.get("start_at"):
             case["start_at"] = spec["start_at"]
             case["P"] = max(case["P"], 20000)
